@@ -96,6 +96,11 @@ def space(tier):
     sp = c05.space("quick") + c06.space("quick") + [s for s in c03.space("quick") if s.tag[0] in ("init", "binit", "bassign", "bcast", "breg", "bstore", "chain-assign", "store", "reg")]
     if tier == "thorough":
         sp = c05.space("thorough") + c06.space("thorough") + c03.space("quick")
+    # calls with every kind of argument expression in every statement context (void calls; thorough: all)
+    from vf import staticprops
+
+    calls = staticprops.gen_calls(staticprops.CALL_ARGS[:6] if tier == "quick" else staticprops.CALL_ARGS)
+    sp = sp + [s for s in calls if tier == "thorough" or s.tag[0] == "vcall"]
     return sp
 
 
@@ -140,7 +145,7 @@ def run(ctx):
     # generated programs
     specs = space(ctx.tier)
     pc = drive.ParseCache(("c05-%s" % ctx.tier))
-    for other in ("c06-%s" % ctx.tier, "c03-quick"):
+    for other in ("c06-%s" % ctx.tier, "c03-quick", "static-%s" % ctx.tier):
         pc.z.update(drive.ParseCache(other).z)
     pc.ensure([s.text for s in specs], seed=ctx.seed)
     for f in comps:
